@@ -437,6 +437,7 @@ func c08Phased(id string, workers, each int, queueFirst bool, seed int64) core.S
 
 func c08Scenarios(c *core.Ctx, race bool) []core.Scenario {
 	var out []core.Scenario
+	out = append(out, c08Instantiations(fmt.Sprintf("instantiations-race%v", race)))
 	for i := 0; i < c.Pick(40, 400); i++ {
 		out = append(out, c08Phased(fmt.Sprintf("phased-%d-race%v", i, race), 1+i%4, 2+i%7, i%2 == 0, c.Seed*5+int64(i)))
 	}
@@ -496,7 +497,7 @@ func init() {
 		Meta: func(c *core.Ctx) core.Meta {
 			return core.Meta{
 				Level: "exploration",
-				Rule:  "concurrent histories recorded at the client boundary (call before / return after, one monotonic clock, unique values = producer<<32|seq) against ConcurrentQueue and ConcurrentStack wrapping LinkedListQueue, ChannelQueue(3) (Offer/Poll), BufferedChannelQueue(2,6) (Offer/Poll, relaxed model; a drain that sees empty while the wrapped queue still holds values for 1 s is a violation) and a harness-provided non-thread-safe slice queue/stack; one LinkedListQueue behind BOTH wrappers in non-overlapping queue / stack phases; 1..16 producers x 1..16 consumers, PRNG yields; short histories (<= 40 ops, mixed roles) are checked for linearizability with porcupine against FIFO / LIFO / BoundedFIFO models after a single-threaded drain; long runs by the exactly-once / no-invention / per-producer-order checker; phased bursts (backlogs 1100..12000 built by 1 or 4 producers, removed completely by 1 or 4 consumers, then quiescent probes, 4-8 rounds, GC paused so that recycled nodes stay pooled); every call under recover; the same workload repeated in the -race build (deciding). distinct_nontrivial = distinct scenarios (workload seeds)",
+				Rule:  "concurrent histories recorded at the client boundary (call before / return after, one monotonic clock, unique values = producer<<32|seq) against ConcurrentQueue and ConcurrentStack wrapping LinkedListQueue, ChannelQueue(3) (Offer/Poll), BufferedChannelQueue(2,6) (Offer/Poll, relaxed model; a drain that sees empty while the wrapped queue still holds values for 1 s is a violation) and a harness-provided non-thread-safe slice queue/stack; one LinkedListQueue behind BOTH wrappers in non-overlapping queue / stack phases; six other instantiations alive in one process (interface element types any / error / fmt.Stringer, *struct, func); 1..16 producers x 1..16 consumers, PRNG yields; short histories (<= 40 ops, mixed roles) are checked for linearizability with porcupine against FIFO / LIFO / BoundedFIFO models after a single-threaded drain; long runs by the exactly-once / no-invention / per-producer-order checker; phased bursts (backlogs 1100..12000 built by 1 or 4 producers, removed completely by 1 or 4 consumers, then quiescent probes, 4-8 rounds, GC paused so that recycled nodes stay pooled); every call under recover; the same workload repeated in the -race build (deciding). distinct_nontrivial = distinct scenarios (workload seeds)",
 				Assumptions: []string{"a race report inside the wrapped structure or the wrapper refutes the property (the baseline wrapper is expected to serialise every access)",
 					"ChannelQueue is wrapped through Offer/Poll only (its blocking Put/Take under the wrapper's lock are documented as blocking)"},
 			}
